@@ -146,7 +146,7 @@ PROPS = {
                      "not yet proved for all texts"],
     ),
     "C01": dict(
-        proof_modules=["KsVerif.Proofs.C01", "KsVerif.Proofs.C01Amqp"],
+        proof_modules=["KsVerif.Proofs.C01", "KsVerif.Proofs.C01Amqp", "KsVerif.Proofs.C01Kafka"],
         families=["redis.raw", "amqp.raw", "kafka.raw", "kafka.layout", "http2.raw", "http2.conv"],
         rule="amqp.raw: corpus of frames with lengths far beyond the data, negative lengths, bad frame types and "
              "end octets (each with every two-piece split and both stream ends), every prefix of well-formed halves, "
